@@ -24,7 +24,7 @@ type goroutineInfo struct {
 var gHeader = regexp.MustCompile(`^goroutine (\d+) \[([^\]]*)\]:`)
 
 func allStacks() string {
-	n := 1 << 20
+	n := 64 << 10
 	for {
 		buf := make([]byte, n)
 		k := runtime.Stack(buf, true)
